@@ -77,12 +77,9 @@ def run_selftest(prop, base_violations):
             else:  # mutant / twin: payload = (relpath, new source)
                 rel, src = payload
                 if rel == "*":
-                    import ast as _ast
+                    from sa.transforms import TRANSFORMS
 
-                    for f in glob.glob(os.path.join(scratch, "dask_expr", "**", "*.py"), recursive=True):
-                        txt = open(f).read()
-                        with open(f, "w") as fh:
-                            fh.write(_ast.unparse(_ast.parse(txt)) + "\n")
+                    TRANSFORMS[src](scratch)
                 else:
                     with open(os.path.join(scratch, rel), "w") as f:
                         f.write(src)
